@@ -394,6 +394,64 @@ class Env:
     def p_mem__swap(s, M, st, th, ci, a):
         x = s.tgt(M, st, a[0]); y = s.tgt(M, st, a[1]); M.write(st, a[0], y); M.write(st, a[1], x); return s.ret(st, UNIT)
 
+    # ----- comparison traits on machine integers (everything else goes through the crate's own impls / derives)
+    _INTS = ('u8', 'u16', 'u32', 'u64', 'u128', 'usize', 'i8', 'i16', 'i32', 'i64', 'i128', 'isize')
+
+    def _int_args(s, M, st, ci, a):
+        h = ci['self_head']
+        if h not in s._INTS: return None
+        vals = [s.tgt(M, st, x) if isinstance(x, Ref) else x for x in a]
+        if any(isinstance(v, (Agg, Ref, Opaque)) for v in vals): return None
+        return h.startswith('i'), vals
+
+    def _ite(s, c, p, q):
+        if isinstance(c, bool): return p if c else q
+        return simp(z3.If(c, z(p), z(q)))
+
+    def t_Ord__max(s, M, st, th, ci, a):
+        r = s._int_args(M, st, ci, a)
+        if r is None: return None
+        sg, (x, y) = r; return s.ret(st, s._ite(binop('Gt', x, y, sg), x, y))
+    def t_Ord__min(s, M, st, th, ci, a):
+        r = s._int_args(M, st, ci, a)
+        if r is None: return None
+        sg, (x, y) = r; return s.ret(st, s._ite(binop('Lt', x, y, sg), x, y))
+    def t_Ord__clamp(s, M, st, th, ci, a):
+        r = s._int_args(M, st, ci, a)
+        if r is None: return None
+        sg, (x, lo, hi) = r; outs = []
+        for st2, bad in M.fork_on(st, binop('Gt', lo, hi, sg)):
+            if bad: outs.append(('panic', st2, 'assertion failed: min <= max', 'deadpool'))
+            else: outs.append(('ret', st2, s._ite(binop('Lt', x, lo, sg), lo, s._ite(binop('Gt', x, hi, sg), hi, x))))
+        return outs
+    def t_Ord__cmp(s, M, st, th, ci, a):
+        r = s._int_args(M, st, ci, a)
+        if r is None: return None
+        sg, (x, y) = r; outs = []
+        for st2, lt in M.fork_on(st, binop('Lt', x, y, sg)):
+            if lt: outs.append(('ret', st2, mk_enum('Ordering', 'Less'))); continue
+            for st3, eq in M.fork_on(st2, binop('Eq', x, y)):
+                outs.append(('ret', st3, mk_enum('Ordering', 'Equal' if eq else 'Greater')))
+        return outs
+    def t_PartialOrd__partial_cmp(s, M, st, th, ci, a):
+        r = s.t_Ord__cmp(M, st, th, ci, a)
+        if r is None: return None
+        return [(k, st2, some(v)) for (k, st2, v) in r]
+    def _cmpop(op):
+        def f(s, M, st, th, ci, a):
+            r = s._int_args(M, st, ci, a)
+            if r is None: return None
+            sg, (x, y) = r; return s.ret(st, binop(op, x, y, sg))
+        return f
+    t_PartialOrd__lt = _cmpop('Lt'); t_PartialOrd__le = _cmpop('Le'); t_PartialOrd__gt = _cmpop('Gt'); t_PartialOrd__ge = _cmpop('Ge')
+    t_PartialEq__eq = _cmpop('Eq'); t_PartialEq__ne = _cmpop('Ne')
+    def p_Ordering__is_lt(s, M, st, th, ci, a): return s.ret(st, a[0].variant == 'Less')
+    def p_Ordering__is_le(s, M, st, th, ci, a): return s.ret(st, a[0].variant != 'Greater')
+    def p_Ordering__is_gt(s, M, st, th, ci, a): return s.ret(st, a[0].variant == 'Greater')
+    def p_Ordering__is_ge(s, M, st, th, ci, a): return s.ret(st, a[0].variant != 'Less')
+    def p_Ordering__is_eq(s, M, st, th, ci, a): return s.ret(st, a[0].variant == 'Equal')
+    def p_Ordering__is_ne(s, M, st, th, ci, a): return s.ret(st, a[0].variant != 'Equal')
+
     def p_cmp__min(s, M, st, th, ci, a): return s._minmax(M, st, a, True)
     def p_cmp__max(s, M, st, th, ci, a): return s._minmax(M, st, a, False)
     def _minmax(s, M, st, a, mn):
